@@ -153,7 +153,7 @@ Qed.
 Definition is_query (o : op) : bool :=
   match o with
   | Put _ _ | Remove _ | Clear | ForeachRemove _ _ | IterNew _ _ | IterHasNext _ | IterNext _
-  | IterRemove _ => false
+  | IterRemove _ | SetValueAt _ _ _ | EntryEquals _ _ _ _ | IterSetValue _ _ => false
   | _ => true
   end.
 
@@ -168,6 +168,61 @@ Proof.
   - f_equal. rewrite Sz. destruct (s_list ss); reflexivity.
   - rewrite <- L. apply preorder_perm.
   - rewrite <- L. apply postorder_perm.
+Qed.
+
+(* ------------------------------------------------------------------ live entries *)
+Lemma m_access_spec acc k t : bst t -> m_access acc k t = sl_access acc k (inorder t).
+Proof.
+  intros H. unfold m_access, sl_access.
+  rewrite min_entry_spec, max_entry_spec, floor_spec, ceiling_spec, higher_spec, lower_spec by exact H.
+  reflexivity.
+Qed.
+
+Lemma hd_in {A} (l : list A) e : hd_error l = Some e -> In e l.
+Proof. destruct l; cbn; [discriminate|]. intros [= ->]. left. reflexivity. Qed.
+
+Lemma sl_access_in acc k l e : sl_access acc k l = Some e -> In e l.
+Proof.
+  unfold sl_access, sl_first, sl_last, sl_floor, sl_ceiling, sl_higher, sl_lower.
+  destruct (acc =? 0); [apply hd_in|].
+  destruct (acc =? 1); [intros H; apply in_rev; apply hd_in; exact H|].
+  destruct (acc =? 2); [intros H; apply find_some in H; apply in_rev; tauto|].
+  destruct (acc =? 3); [intros H; apply find_some in H; tauto|].
+  destruct (acc =? 4); [intros H; apply find_some in H; tauto|].
+  destruct (acc =? 5); [intros H; apply find_some in H; apply in_rev; tauto|discriminate].
+Qed.
+
+Lemma inv_access ms ss acc k : Inv ms ss ->
+  m_access acc k (m_tree ms) = sl_access acc k (s_list ss).
+Proof. intros HI. rewrite <- (inv_list _ _ HI). apply m_access_spec. exact (inv_bst _ _ HI). Qed.
+
+Lemma step_set_value_at ms ss acc k v : Inv ms ss -> step_ok ms ss (SetValueAt acc k v).
+Proof.
+  intros HI. unfold step_ok. cbn [mstep sstep]. rewrite (inv_access _ _ acc k HI).
+  destruct (sl_access acc k (s_list ss)) as [[k' old]|] eqn:Ea; [|split; [exact HI|reflexivity]].
+  cbn [fst snd out_agree]. split; [|reflexivity]. apply inv_put_replace; [exact HI|].
+  apply sl_access_in in Ea. rewrite (ssorted_in_lookup _ _ _ (inv_sorted _ _ HI) Ea). discriminate.
+Qed.
+
+Lemma step_entry_equals ms ss a1 k1 a2 k2 : Inv ms ss -> step_ok ms ss (EntryEquals a1 k1 a2 k2).
+Proof.
+  intros HI. unfold step_ok. cbn [mstep sstep].
+  rewrite (inv_access _ _ a1 k1 HI), (inv_access _ _ a2 k2 HI).
+  destruct (sl_access a1 k1 (s_list ss)), (sl_access a2 k2 (s_list ss)); split; try exact HI; reflexivity.
+Qed.
+
+Lemma step_iter_set_value ms ss slot v : Inv ms ss -> step_ok ms ss (IterSetValue slot v).
+Proof.
+  intros HI. unfold step_ok. cbn [mstep sstep]. pose proof (inv_its _ _ HI slot) as R.
+  unfold iter_rel in R. destruct (m_its ms slot) as [mi|], (s_its ss slot) as [si|]; try contradiction;
+    [|split; [exact HI|reflexivity]].
+  destruct R as (Hk & Hl & He & Hn & Hle & Hv). rewrite <- Hl, <- Hk, <- He, <- (inv_ver _ _ HI).
+  destruct (mi_last mi) as [lk|] eqn:El; [|split; [exact HI|reflexivity]].
+  destruct (mi_kind mi <=? 1); cbn [andb]; [|split; [exact HI|reflexivity]].
+  destruct (Z.eqb_spec (mi_exp mi) (m_ver ms)) as [Ev|Ev]; [|split; [exact HI|reflexivity]].
+  rewrite (inv_ver _ _ HI) in Ev. specialize (Hv Ev). destruct Hv as (_ & _ & Hlast & _).
+  rewrite (inv_lookup _ _ lk HI). cbn [fst snd out_agree]. split; [|reflexivity].
+  apply inv_put_replace; [exact HI|]. apply in_keys_lookup. exact Hlast.
 Qed.
 
 (* ------------------------------------------------------------------ iterators *)
@@ -298,6 +353,9 @@ Proof.
   - apply step_iter_hasnext; exact I.
   - apply step_iter_next; exact I.
   - apply step_iter_remove; exact I.
+  - apply step_set_value_at; exact I.
+  - apply step_entry_equals; exact I.
+  - apply step_iter_set_value; exact I.
 Qed.
 
 Fixpoint outs_agree (ops : list op) (mo so : list out) : Prop :=
